@@ -27,6 +27,7 @@ LEVEL_TEXT = (
     "raise a non-verdict error. Seeded random graphs with regexes drawn from the graph's own names; related modules included."
 )
 LEVEL_NOTE = "Expansion uses Python's re.match over the module names read from the raw graph; no rule-semantics model is involved."
+LEVEL_TEXT += ' Regex kinds include quantifiers after a literal, look-aheads, inline flags and unescaped dots; partial names with upper-case letters and in the other case.'
 RULE = (
     "an evaluation = one Rule.assert_applies; a case = one law instance (compact rule + its expansion members on one evaluable); "
     "non-trivial = the compact rule gave a verdict on a non-empty import relation and the expansion has >= 2 members or the regex "
